@@ -132,6 +132,7 @@ def valid_text(r, fmt, tier):
 
 class C15(Prop):
     id = "C15"
+    fp_mode = "history"
     engine = "corrupt"
     fit = "A"
     rule = ("one evaluation = one valid EDIF / Verilog / EBLIF text (generated, or a small bundled example), a fault "
@@ -140,7 +141,7 @@ class C15(Prop):
             "r-th read) and a seeded short-read law; the reader is called under a virtual step budget of 50x the "
             "fault-free step count; then 0-4 further good or bad parses of any format and a few API edits follow, "
             "and a fixed probe script must behave as in a fresh process; non-trivial = the fault plan was applied "
-            "and changed what the reader saw; distinct = distinct (event-kind multiset, final fingerprint) pairs. "
+            "and changed what the reader saw; distinct = distinct (event-kind multiset, fingerprint of the sequence of states passed) pairs. "
             "The thorough tier additionally sweeps EVERY token boundary (truncation) and EVERY token (delete, "
             "duplicate) of every generated text of at most 400 tokens.")
     relevant_ops = {"parse_steps"}
@@ -199,10 +200,13 @@ class C15(Prop):
             elif x < 0.8:
                 tk, _ = corrupt.tokenize(f2, t2)
                 bad, read_plan, facts = corrupt.apply(f2, t2, corrupt.plan(r, f2, len(tk), len(t2), kinds if f2 != "edf" else None))
+                # the step budget of a faulted follow-up is 50x the fault-free cost of ITS OWN text, measured first
+                ev.append({"op": "fs_put", "path": "sim://f%d_ok.%s" % (k, f2), "text": t2})
+                ev.append({"op": "parse_steps", "path": "sim://f%d_ok.%s" % (k, f2), "tag": "follow_base"})
                 ev.append({"op": "fs_put", "path": "sim://f%d.%s" % (k, f2), "text": bad})
                 ev.append({"op": "fs_plan", "path": "sim://f%d.%s" % (k, f2), "plan": read_plan})
                 ev.append({"op": "parse_steps", "path": "sim://f%d.%s" % (k, f2), "tag": "follow_bad", "budget_mult": 50,
-                           "facts": facts, "changed": True})
+                           "facts": facts, "changed": True, "chars": len(bad)})
             else:
                 ev.append({"op": "netlist_new", "name": "n%d" % k})
                 ev.append({"op": "create_library", "on": "e%d.0" % (len(ev) - 1), "name": "a-b",
@@ -215,14 +219,25 @@ class C15(Prop):
     def start(self, w, cfg):
         self.reference = None
         self.base_steps = None
+        self.follow_base = None
+        self.to_release = None
         self.cfg = cfg
         w.last_parse = None
         w.last_steps = 0
 
     def before(self, w, ev):
+        if self.to_release:
+            w.release(self.to_release)   # (the state fingerprint taken after its own event still covered it)
+            self.to_release = None
         if ev["op"] == "parse_steps":
             if ev.get("budget_mult"):
-                ev["budget"] = max(20000, ev["budget_mult"] * (self.base_steps or 400))
+                if ev.get("tag") == "follow_bad":
+                    # (without a measured baseline - the valid follow-up text was itself rejected, or the trace was
+                    # shrunk - a budget from the size of the text: 200 lines per character)
+                    base = self.follow_base or (4 * ev.get("chars", 100))
+                else:
+                    base = self.base_steps or 400
+                ev["budget"] = max(20000, ev["budget_mult"] * base)
             return World.process_state_fingerprint()
         return None
 
@@ -244,6 +259,8 @@ class C15(Prop):
         facts = ev.get("facts") or {}
         what = "+".join(sorted(set(facts.get("applied", [])))) or "none"
         disc = "%s/%s" % (fmt, tag)
+        if tag == "follow_base":
+            self.follow_base = w.last_steps if outcome == "ok" else None
         if tag == "baseline":
             self.base_steps = w.last_steps
             if outcome != "ok":
@@ -278,6 +295,9 @@ class C15(Prop):
                 kind = [a for a in facts["applied"] if a.startswith("dangling") or a == "unsupported"][0]
                 raise Violation("C15.%s_accepted" % ("unsupported" if kind == "unsupported" else "dangling"), kind,
                                 "the reader returned a netlist for a text with %s" % kind)
+            # nothing later in the run refers to this netlist: let it go (a complete sweep returns hundreds, and
+            # every one of them would be walked again by the state fingerprint after each later event)
+            self.to_release = "e%d.0" % ev["i"]
 
 
 PROP = C15
